@@ -240,6 +240,20 @@ pub fn step_poll(c: &UCfg) {
                 }
                 k += 1;
             }
+            // C13 across groups: a Pending answer means every group was visited, and
+            // a visit polls every queued child (far fewer than the budget here): a
+            // child that was woken before this call has been polled by it
+            let mut k = 0;
+            while k < c.n {
+                let mut i = 0;
+                while i < c.caps[k] {
+                    if pre.g[k].occ[i] && pre.g[k].queued(i) {
+                        vassert!(gh.polls_in_call[pre.base[k] + i] >= 1, "C13:Pending although a woken child of some group was not polled by this call (it can wait for ever)");
+                    }
+                    i += 1;
+                }
+                k += 1;
+            }
             // C01: every remaining group was polled with this task waker:
             // registered (or woken), and no queued held child left un-polled
             let mut k = 0;
